@@ -33,7 +33,7 @@ SLACK_UNIT = 64.0         # * eps
 SLACK_MIN = 256.0         # * eps * |H|
 
 SPECTRA = ("uniform", "gapped", "clustered", "wide", "degenerate")
-EXP_CLASSES = ("herm", "nonherm", "lindblad", "rydberg")
+EXP_CLASSES = ("herm", "nonherm", "lindblad", "rydberg", "chain")
 
 
 # ----------------------------------------------------------------------------------- building blocks
@@ -113,6 +113,17 @@ def build_operator(spec: dict) -> dict:
         na = max(1, int(round(math.log2(max(n, 2)))))
         h = rydberg_h(na, rng)
         out.update(A=-1j * scale * h, H=h, s=scale, herm=True)          # scale = dt in us
+    elif cls == "chain":
+        # weakly coupled chain (the structure of a weakly driven atom register): couplings spread over many
+        # decades, diagonal entries 0 or O(1); the start vector (basis state 0) is nearly annihilated
+        c = 10.0 ** rng.uniform(-7, 0, max(n - 1, 0))
+        ph = np.exp(1j * rng.uniform(-math.pi, math.pi, max(n - 1, 0))) if cplx else np.ones(max(n - 1, 0))
+        dg = rng.choice([0.0, 1.0], n) * rng.uniform(-1, 1, n)
+        h = np.diag(dg).astype(complex)
+        for i in range(n - 1):
+            h[i, i + 1] = c[i] * ph[i]
+            h[i + 1, i] = np.conj(c[i] * ph[i])
+        out.update(A=-1j * scale * h, H=h, s=scale, herm=True)
     elif cls == "nonherm":
         h, _ = hermitian(n, spectrum(spec["spectrum"], n, rng), rng, cplx)
         g = psd(n, rng, cplx) * float(spec.get("gamma", 1.0))
